@@ -8,6 +8,7 @@ package main
 // outcome, yields and globals (numbers as bit patterns through the dump).
 
 import (
+	"fmt"
 	"os"
 	"strings"
 )
@@ -123,6 +124,10 @@ func runC01(cfg Config, r *Result) {
 			r.Sample(map[string]any{"program": src})
 		}
 	}
+	// operator table sweep: every operator on every ordered pair of a pool of values per operand type
+	for _, src := range c01OperatorSweep(cfg) {
+		semCase(model, r, src, SemOpts{StopAt: -1, YieldBudget: 200000}, true, "sweep:")
+	}
 	// precedence / associativity / layout: derivations of the layered grammar as oracle (harness/c01prec.go)
 	rule := r.Rule
 	runC01prec(cfg, r)
@@ -137,3 +142,72 @@ func firstLine(s string) string {
 }
 
 func init() { register("C01", runC01) }
+
+// c01OperatorSweep returns programs that apply every applicable binary operator to every ordered pair of
+// values from a pool per operand type (numbers incl. NaN/Inf/-0, strings incl. non-ASCII and prefixes,
+// bools, arrays incl. prefixes and nested, maps incl. sub/supersets of keys, reordered keys and nested
+// values, any-boxed values), each operand held in a typed variable.
+func c01OperatorSweep(cfg Config) []string {
+	type pool struct {
+		ty   string
+		vals []string
+		ops  []string
+	}
+	cmp := []string{"==", "!=", "<", ">", "<=", ">="}
+	pools := []pool{
+		{"num", []string{"0", "1", "-1", "2.5", "(0/0)", "(1/0)", "(-1/0)", "(-0)", "7", "9007199254740993"}, append([]string{"+", "-", "*", "/", "%"}, cmp...)},
+		{"string", []string{`""`, `"a"`, `"ab"`, `"b"`, `"äö"`, `"A"`, `"a b"`, `"日本"`}, append([]string{"+"}, cmp...)},
+		{"bool", []string{"true", "false"}, []string{"==", "!=", "and", "or"}},
+		{"[]num", []string{"[]", "[1]", "[1 2]", "[2 1]", "[1 2 3]", "[(0/0)]"}, []string{"==", "!=", "+"}},
+		{"[][]num", []string{"[]", "[[1]]", "[[1] [2]]", "[[1 2]]", "[[]]", "[[1] []]"}, []string{"==", "!=", "+"}},
+		{"{}num", []string{"{}", "{a:1}", "{a:1 b:2}", "{b:2 a:1}", "{a:1 b:3}", "{a:2}", "{b:2}", "{a:1 b:2 c:3}"}, []string{"==", "!="}},
+		{"{}[]num", []string{"{}", "{a:[1]}", "{a:[1] b:[2]}", "{b:[2] a:[1]}", "{a:[1 2]}", "{a:[]}"}, []string{"==", "!="}},
+		{"[]{}num", []string{"[]", "[{a:1}]", "[{a:1 b:2}]", "[{a:1} {b:2}]", "[{}]"}, []string{"==", "!=", "+"}},
+		{"any", []string{"1", `"a"`, "true", "[1]", "{a:1}", "{a:1 b:2}", "[1 2]", "2"}, []string{"==", "!="}},
+	}
+	var out []string
+	for _, p := range pools {
+		var b strings.Builder
+		n := 0
+		flush := func() {
+			if n > 0 {
+				out = append(out, b.String())
+				b.Reset()
+				n = 0
+			}
+		}
+		for i, x := range p.vals {
+			for j, y := range p.vals {
+				fmt.Fprintf(&b, "x%d_%d:%s\ny%d_%d:%s\nx%d_%d = %s\ny%d_%d = %s\n", i, j, p.ty, i, j, p.ty, i, j, x, i, j, y)
+				for _, op := range p.ops {
+					fmt.Fprintf(&b, "print %q (x%d_%d %s y%d_%d)\n", x+" "+op+" "+y, i, j, op, i, j)
+				}
+				n++
+				if n >= 12 {
+					flush()
+				}
+			}
+		}
+		flush()
+	}
+	// array repetition
+	var b strings.Builder
+	for i, a := range []string{"[]", "[1]", "[1 2]", "[[1] [2 3]]", "[{a:1}]"} {
+		for j, k := range []string{"0", "1", "2", "3", "(-1)", "1.5", "(0/0)", "(1/0)"} {
+			ty := "[]num"
+			if i == 3 {
+				ty = "[][]num"
+			} else if i == 4 {
+				ty = "[]{}num"
+			}
+			fmt.Fprintf(&b, "r%d_%d:%s\nr%d_%d = %s\nn%d_%d := %s\n", i, j, ty, i, j, a, i, j, k)
+			if j >= 4 {
+				out = append(out, fmt.Sprintf("r:%s\nr = %s\nn := %s\nprint (r * n)\n", ty, a, k))
+				continue
+			}
+			fmt.Fprintf(&b, "print (r%d_%d * n%d_%d)\n", i, j, i, j)
+		}
+	}
+	out = append(out, b.String())
+	return out
+}
